@@ -3,5 +3,6 @@ CONSTANTS
   NMsgs = 6
   MaxOps = 3
   Buffers = {TRUE, FALSE}
+  Kinds = {"unbounded", "bounded", "ring", "prio", "segmented"}
   Depth = 22
 CONSTRAINT Emit
